@@ -173,6 +173,10 @@ func ParseResponse(data []byte, req *http.Request) (resp *Response, err error) {
 	if err != nil {
 		return nil, errors.Join(errInvalidResponse, fmt.Errorf("failed to read response: %w", err))
 	}
+	// Reading the entry back may leave framing of the stored copy in the header
+	// (an HTTP/1.0 response keeps the "Connection: close" its serialisation
+	// added): that is not a field of the stored response.
+	removeHopByHopHeaders(r)
 	resp.Data = r
 	return resp, nil
 }
